@@ -182,6 +182,25 @@ theorem mk_gives_hypotheses {xs ys : List Rat} {xdim fdim : Rat} {o : Obj} (hmk 
 
 example : ∃ o, mk [0, 1, 3, 7] [5, -2, -2, 11] (-1) (-1) = .ok o := ⟨_, rfl⟩
 
+/-- request level, exactly what the driver (`run1D`) evaluates for one `Interpolate(v)` request and
+    what the harness asks of the real library: table accepted by the constructor (any unit factors),
+    any `Set_Prefactor`/`Multiply`, any abscissa of the tabulated domain ⇒ the answer is a number,
+    computed on an interval that brackets `v`, between the two neighbouring tabulated values -/
+theorem run1D_between_neighbours {xs ys : List Rat} {xdim fdim pref mul v : Rat} {o : Obj}
+    (hmk : mk xs ys xdim fdim = .ok o) (h0 : o.x 0 ≤ v) (h1 : v ≤ o.x (o.N - 1)) :
+    ∃ r j, run1D xs ys xdim fdim pref mul [(v, -1)] = .ok [(r, j)] ∧ j + 1 < o.N ∧ o.x j ≤ v ∧ v ≤ o.x (j + 1)
+      ∧ rmin (pref * mul * o.y j) (pref * mul * o.y (j + 1)) ≤ r
+      ∧ r ≤ rmax (pref * mul * o.y j) (pref * mul * o.y (j + 1)) := run1D_between_aux hmk h0 h1
+
+/-- non-vacuity of the segment theorems on the table `x = 0,1,3,7`, `y = 5,-2,-2,11`
+    (a descent, a plateau, a rise; spacing ratio 4): interval 2, abscissa 5 -/
+example : rmin (exY 2) (exY 3) ≤ cubic 4 exX exY 2 5 ∧ cubic 4 exX exY 2 5 ≤ rmax (exY 2) (exY 3) :=
+  interp_between_neighbours exX_inc (j := 2) (by decide) (by decide +kernel) (by decide +kernel)
+
+example : cubic 4 exX exY 2 4 ≤ cubic 4 exX exY 2 5 :=
+  (interp_monotone_on_segment exX_inc (j := 2) (v := 4) (v' := 5) (by decide) (by decide +kernel) (by decide +kernel)
+    (by decide +kernel)).1 (by decide +kernel)
+
 /-! ## 5. Exactness on straight lines and (limiter inactive) on parabolas -/
 
 /-- data on a straight line are reproduced exactly — any `N ≥ 3`, any spacing, every interval, every
@@ -190,6 +209,10 @@ theorem steffen_linear_exact {N : Nat} {x y : Nat → Rat} (hN : 3 ≤ N) (hx : 
     (hy : ∀ i, i < N → y i = m * x i + q) {j : Nat} (hj : j + 1 < N) (v : Rat) :
     cubic N x y j v = m * v + q ∧ cubicD1 N x y j v = m ∧ cubicD2 N x y j v = 0 ∧ cubicD3 N x y j = 0 :=
   cubic_linear hN hx hy hj v
+
+example : cubic 4 exX (fun i => 2 * exX i + 1) 1 2 = 2 * 2 + 1 :=
+  (steffen_linear_exact (N := 4) (by decide) exX_inc (m := 2) (q := 1) (y := fun i => 2 * exX i + 1)
+    (fun _ _ => rfl) (j := 1) (by decide) 2).1
 
 /-- data on a parabola are reproduced exactly on every interval at whose two ends the limiter is
     inactive (`limiterInactive`: the limited slope equals the un-limited estimate; decidable) -/
@@ -235,6 +258,11 @@ theorem bilinear_in_hull {x y : Nat → Rat} (F : Nat → Nat → Rat) {i j : Na
   obtain ⟨b0, b1, b2, b3⟩ := le_max4 (F i j) (F (i + 1) j) (F (i + 1) (j + 1)) (F i (j + 1))
   unfold cell
   exact bilinear_hull t0 t1 u0 u1 a0 a1 a2 a3 b0 b1 b2 b3
+
+example : min4 (0 - 2) (1 - 2) (1 - 3) (0 - 3) ≤ cell exX exX (fun i j => (i : Rat) - j) 0 2 (1 / 2) 5 :=
+  (bilinear_in_hull (x := exX) (y := exX) (fun i j => (i : Rat) - j) (i := 0) (j := 2) (by decide +kernel)
+    (by decide +kernel) (vx := 1 / 2) (vy := 5) (by decide +kernel) (by decide +kernel) (by decide +kernel)
+    (by decide +kernel)).1
 
 /-- the value is continuous across the edge shared by two neighbouring cells (both directions) -/
 theorem bilinear_edge_continuous {x y : Nat → Rat} (F : Nat → Nat → Rat) {i j : Nat} (vx vy : Rat) :
